@@ -69,6 +69,14 @@ def step (_ : Unit) (op impl : String) : Unit × DrvOut :=
   let out (m : String) : Unit × DrvOut := ((), { model := m, spec := verdict impl })
   match words op with
   | ["reset"] => ((), { model := "ok" })
+  | ["twcc", id, _raw, parsed, ext, prof, ids, nonNil] =>
+    let ids? : Option (List Nat) := if ids == "_" then some [] else (ids.splitOn ",").mapM (·.toNat?)
+    match id.toNat?, prof.toNat?, ids? with
+    | some id, some prof, some ids =>
+      if parsed != "1" then out "bad" else
+      out (showR (stripTWCC id ⟨ext == "1", prof, ids⟩ (nonNil == "1")) fun p =>
+        s!"ok {b01 p.ext} {p.profile} {if p.ids.isEmpty then "_" else ",".intercalate (p.ids.map toString)}")
+    | _, _, _ => ((), { model := "bad-op" })
   | ["dump", cl, body] =>
     let body? : Option Bytes :=
       if body.startsWith "z" then ((body.drop 1).toString.toNat?).map fun n => List.replicate n (97 : UInt8)
